@@ -69,6 +69,7 @@ type Machine struct {
 	mapWrites    []mapWrite
 	chanCaps     map[string]Term
 	queryOf      map[*Obligation]string
+	divCache     map[string][2]Term
 	// which properties / kinds to emit safety obligations for
 	safetyProps []string
 }
@@ -93,7 +94,7 @@ func newMachine(prog *ssa.Program, pkg *ssa.Package, cf *ContractFile, pre *Prel
 	return &Machine{prog: prog, pkg: pkg, fset: prog.Fset, contracts: cf, prelude: pre, syms: newSymTab(),
 		facts: map[string][]Term{}, strLits: map[string]Term{}, typeConst: map[string]Term{},
 		globals: map[*ssa.Global]*Obj{}, globalMem: map[cellKey]Value{}, loopInfo: map[*ssa.Function]*LoopInfo{},
-		maxPaths: 20000, inlineMax: 6, warned: map[string]bool{}, ifacePayload: map[string]Value{}, provenance: map[*Obj]Term{}, sliceTok: map[*Obj]Term{}, runeStr: map[string]runeWindow{}, chanCaps: map[string]Term{}}
+		maxPaths: 20000, inlineMax: 6, warned: map[string]bool{}, ifacePayload: map[string]Value{}, provenance: map[*Obj]Term{}, sliceTok: map[*Obj]Term{}, runeStr: map[string]runeWindow{}, chanCaps: map[string]Term{}, divCache: map[string][2]Term{}}
 }
 
 type unsupported struct{ msg string }
@@ -1063,6 +1064,12 @@ func (m *Machine) binop(c *Config, x *ssa.BinOp) Value {
 		case token.QUO, token.REM:
 			m.safety(c, "safe-div", Not(Eq(bt, BVLitI(0, bt.Sort.Width()))), x.Pos())
 			c.st.assume(Not(Eq(bt, BVLitI(0, bt.Sort.Width()))))
+			if q, r, ok := m.divConst(c.st, at, bt, signed); ok {
+				if x.Op == token.QUO {
+					return q
+				}
+				return r
+			}
 			if x.Op == token.QUO {
 				if signed {
 					return BVSDiv(at, bt)
@@ -1372,4 +1379,45 @@ func loopPos(lp *Loop) token.Pos {
 		}
 	}
 	return best
+}
+
+// divConst eliminates a division by a positive non-power-of-two literal:
+// q and r are fresh and constrained by x = q*c + r (truncated division), which
+// determines them uniquely without the solver having to bit-blast a divider.
+func (m *Machine) divConst(st *State, x, d Term, signed bool) (q, r Term, ok bool) {
+	if !d.IsConst() || x.IsConst() {
+		return
+	}
+	w := x.Sort.Width()
+	c := d.C
+	if signed {
+		c = signedW(c, w)
+	}
+	if c.Sign() <= 0 || new(big.Int).And(c, new(big.Int).Sub(c, big.NewInt(1))).Sign() == 0 {
+		return
+	}
+	key := fmt.Sprintf("%s/%s/%v", x.S, d.S, signed)
+	if qr, hit := m.divCache[key]; hit {
+		return qr[0], qr[1], true
+	}
+	q = m.syms.fresh("quo", x.Sort)
+	r = m.syms.fresh("rem", x.Sort)
+	C := BVLit(c, w)
+	zero := BVLitI(0, w)
+	// the defining facts are attached to the symbols (valid on every path)
+	if signed {
+		max := new(big.Int).Sub(new(big.Int).Lsh(big.NewInt(1), uint(w-1)), big.NewInt(1))
+		min := new(big.Int).Neg(new(big.Int).Lsh(big.NewInt(1), uint(w-1)))
+		m.addFact(q.S, And(
+			Eq(x, BVAdd(BVMul(q, C), r)),
+			BVSlt(r, C), BVSgt(r, BVNeg(C)),
+			Or(Eq(r, zero), Eq(BVSlt(r, zero), BVSlt(x, zero))),
+			BVSle(q, BVLit(new(big.Int).Quo(max, c), w)), BVSge(q, BVLit(new(big.Int).Quo(min, c), w))))
+	} else {
+		max := new(big.Int).Sub(new(big.Int).Lsh(big.NewInt(1), uint(w)), big.NewInt(1))
+		m.addFact(q.S, And(Eq(x, BVAdd(BVMul(q, C), r)), BVUlt(r, C), BVUle(q, BVLit(new(big.Int).Quo(max, c), w))))
+	}
+	m.addFact(r.S, Eq(q, q)) // ties r to q so that the facts of q are included whenever r occurs
+	m.divCache[key] = [2]Term{q, r}
+	return q, r, true
 }
